@@ -95,10 +95,25 @@ def judge_abort(info, site, clause='run_raised'):
     if info.five:
         ctx.outcome = 'sut_abort'
         return True
+    if isinstance(info.raised, TypeError) and 'complex' in str(info.raised) and overshoot(info.w):
+        # observation O5 (DESIGN.md 8): gen_number rounds onto the precision grid and may exceed a bound by less than half
+        # the precision (legal under C08); polynomial mutation of such a parent can take the root of a negative number
+        # and the run dies in clip().  No listed property promises a result for a parent outside the strict box.
+        ctx.outcome = 'sut_abort'
+        ctx.probe('o5_precision_overshoot_crash')
+        return True
     if info.raised is not None:
         ctx.violation('unexpected_exception' if clause is None else clause, site,
                       '%s run raised %r although no design failed five times in a row' % (info.kind, info.raised))
         return True
+    return False
+
+
+def overshoot(w):
+    for c in w.calls:
+        for x, p in zip(c.vector, w.params):
+            if x < p['bounds'][0] or x > p['bounds'][1]:
+                return True
     return False
 
 
